@@ -60,6 +60,7 @@ func cmdRun(args []string) int {
 	bounds := boundFlags{}
 	fs.Var(bounds, "D", "harness bound name=value")
 	prof := fs.String("cpuprofile", "", "write cpu profile")
+	concFmt := fs.Bool("concretefmt", false, "render constant floats natively (all-concrete validation runs)")
 	renderMax := fs.Int("rendermax", 0, "render fixed-precision floats as 4..n symbolic bytes")
 	fs.Parse(args)
 	if *prof != "" {
@@ -83,7 +84,7 @@ func cmdRun(args []string) int {
 		return 2
 	}
 	cfg := &RunConfig{Harness: *h, Fn: fn, MaxSteps: *maxSteps, MaxDepth: 400, MaxPaths: *maxPaths, MapOrderAll: *mo == "all",
-		Twin: *twin, CrossCheckEvery: *x, Bounds: bounds, BoundsSeen: map[string]int{}, TimeoutMs: *timeout, Workers: *j, PanicOK: *panicOK, RenderMax: *renderMax}
+		Twin: *twin, CrossCheckEvery: *x, Bounds: bounds, BoundsSeen: map[string]int{}, TimeoutMs: *timeout, Workers: *j, PanicOK: *panicOK, RenderMax: *renderMax, ConcreteFmt: *concFmt}
 	if *x > 0 {
 		cfg.XSolvers = []SolverKind{KZ3New, KCVC5}
 	}
